@@ -40,8 +40,17 @@ def _strategy(draw):
     # node keys of the input graph need not start at 0, and the edge records may come in any order
     key_offset = draw(st.sampled_from([0, 0, 1, 7])) if route in ("graph", "gen_params") else 0
     edge_order = list(draw(st.permutations(range(max(n - 1, 0))))) if route == "graph" and draw(st.booleans()) else None
+    # the node records of a residue graph may come in any order and carry any distinct keys (the residue ids
+    # say which residue is which)
+    node_order = None
+    idmap = None
+    if route in ("gen_params", "graph") and len(bases) <= 40 and draw(st.booleans()):
+        node_order = list(draw(st.permutations(range(len(bases)))))
+        if draw(st.booleans()):
+            idmap = draw(st.lists(st.integers(0, 99), min_size=len(bases), max_size=len(bases), unique=True))
+            key_offset = 0
     return {"bases": bases, "circular": circular, "route": route, "bad": bad, "edge_labels": labels,
-            "key_offset": key_offset, "edge_order": edge_order,
+            "key_offset": key_offset, "edge_order": edge_order, "node_order": node_order, "idmap": idmap,
             "rng": draw(st.integers(0, 2**31 - 1))}
 
 
@@ -104,18 +113,23 @@ def check(spec, ctx):
     if route == "graph":
         graph = nx.Graph()
         off = spec.get("key_offset", 0)
-        for i, name in enumerate(names):
-            graph.add_node(i + off, resname=name, resid=i + 1)
+        key = spec.get("idmap") or [i + off for i in range(n)]
+        for i in (spec.get("node_order") or range(n)):
+            graph.add_node(key[i], resname=names[i], resid=i + 1)
         order = spec.get("edge_order") or list(range(n - 1))
         for i in order:
-            graph.add_edge(i + off, i + 1 + off)
+            graph.add_edge(key[i], key[i + 1])
         for pos, lab in spec["edge_labels"]:
-            graph.edges[(pos + off, pos + 1 + off)]["tag"] = lab
+            graph.edges[(key[pos], key[pos + 1])]["tag"] = lab
             edge_labels[frozenset((pos + 1, pos + 2))] = lab
         if spec["circular"]:
-            graph.add_edge(off, n - 1 + off, linktype="circle")
+            graph.add_edge(key[0], key[n - 1], linktype="circle")
         if off:
             ctx.label("offset_node_keys")
+        if spec.get("idmap"):
+            ctx.label("arbitrary_node_keys")
+        if spec.get("node_order") and spec["node_order"] != sorted(spec["node_order"]):
+            ctx.label("node_records_permuted")
         if spec.get("edge_order") and spec["edge_order"] != sorted(spec["edge_order"]):
             ctx.label("permuted_edge_records")
         meta = MetaMolecule(graph, force_field=ff, mol_name="mol")
@@ -217,14 +231,20 @@ def check_gen_params(spec, ctx, names):
     (ctx.dir / "dna.ff").write_text(text)
     letters = "".join(b[1] for b in spec["bases"])
     off = spec.get("key_offset", 0)
-    if off:
+    if off or spec.get("node_order"):
         import json
         nn = len(names)
+        listing = spec.get("node_order") or list(range(nn))
+        if listing != sorted(listing):
+            ctx.label("node_records_permuted")
+        key = spec.get("idmap") or [i + off for i in range(nn)]
+        if spec.get("idmap"):
+            ctx.label("arbitrary_node_keys")
         data = {"directed": False, "multigraph": False, "graph": {},
-                "nodes": [{"id": i + off, "resname": names[i], "resid": i + 1} for i in range(nn)],
-                "edges": [{"source": i + off, "target": i + 1 + off} for i in range(nn - 1)]}
+                "nodes": [{"id": key[i], "resname": names[i], "resid": i + 1} for i in listing],
+                "edges": [{"source": key[i], "target": key[i + 1]} for i in range(nn - 1)]}
         if spec["circular"]:
-            data["edges"].append({"source": off, "target": nn - 1 + off, "linktype": "circle"})
+            data["edges"].append({"source": key[0], "target": key[nn - 1], "linktype": "circle"})
         seq_path = ctx.dir / "seq.json"
         seq_path.write_text(json.dumps(data))
         ctx.label("offset_node_keys")
